@@ -70,6 +70,7 @@ def rec_to_decl(smt):
 
 REGISTRY = {}
 ORDER = []
+AXIOMATIZED = {}      # function name -> (application term -> list of definitional axioms), instantiated per occurrence
 
 
 def define(name, smt, deps=(), py=None, kind='define', doc=''):
@@ -131,9 +132,10 @@ def build_query(hyps, goal, extra_decls=(), get_values=None, logic='ALL', opaque
             for n in REGISTRY:
                 if n in txt:
                     names.add(n)
-    # definitional axioms of array-valued helper functions, instantiated for the applications that occur
+    # definitional axioms of array-valued helper functions (shift, awrite, ...), instantiated for the applications that occur
     extra_hyps = []
-    if 'shift' in names:
+    used = [n for n in AXIOMATIZED if n in names]
+    if used:
         seen = set()
         stack = list(hyps) + [goal]
         found = {}
@@ -142,21 +144,30 @@ def build_query(hyps, goal, extra_decls=(), get_values=None, logic='ALL', opaque
             if id(x) in seen:
                 continue
             seen.add(id(x))
-            if x.op == 'shift':
+            if x.op in AXIOMATIZED:
                 found[x.smt()] = x
             if x.op == 'forall':
                 stack.append(x.args[1])
             elif x.op not in ('int', 'bool', 'strlit', 'var', 'raw'):
                 stack.extend(a for a in x.args if isinstance(a, t.T))
-        i = t.var('sh!', t.INT)
-        for x in found.values():
+        have = {h.smt() for h in hyps}
+        pending = list(found.values())
+        done = set()
+        while pending:
+            x = pending.pop()
+            if x.smt() in done:
+                continue
+            done.add(x.smt())
             if any(v.endswith('!|') or v.endswith('!') for v in x.free_vars()):
                 continue
-            ax = t.forall([i], t.eq(t.select(x, i), t.select(x.args[0], t.add(x.args[1], i))), pats=[[t.select(x, i)]])
-            if ax.smt() not in {h.smt() for h in hyps}:
-                extra_hyps.append(ax)
+            for ax in AXIOMATIZED[x.op](x):
+                if ax.smt() not in have:
+                    have.add(ax.smt())
+                    extra_hyps.append(ax)
         for h in extra_hyps:
             h.free_vars(fv)
+            h.apps(apps)
+        names = {a for a in apps if isinstance(a, str)} | names
     hyps = list(hyps) + extra_hyps
     lines = ['(set-logic %s)' % logic, '(set-option :produce-models true)', DATATYPES.strip()]
     for spec in closure(names):
